@@ -2,14 +2,16 @@
 C14 — The message construction API emits exactly the members each version requires.
 
 Model   : lean/JRV/Model/Payload.lean (+ Backend.lean for the JSON text layer)
-Theorems: lean/JRV/Properties/C14.lean
-Tie     : extracted thresholds / id test (tools/extractors/payload.py) + differential correspondence of
-          jsonrpclib.dump / dumps / loads / Fault.dump / Fault.response over the cross product of arguments.
-Monitor : the property statement, checked directly on the real outputs.
+Theorems: lean/JRV/Properties/C14.lean (+ C14Gen.lean: companions of the extracted facts)
+Tie     : extracted thresholds / id test / forced-id test / result expression (tools/extractors/payload.py) + differential
+          correspondence of jsonrpclib.dump / Fault.dump(rpcid=, version=) over the cross product of arguments.
+Monitor : the property statement, checked directly on the real outputs of dump, of dumps (parsed), and of
+          loads(dumps(x)) with class translation off and on: member sets AND values (method, params, result, id, error
+          code/message/data) against the inputs.  Whether an id was generated is decided from the SUPPLIED rpcid
+          (None or ""), never from the spelling of the id; generated ids are masked by position.
 """
 import itertools
 import json
-import re
 
 import gen
 import impl
@@ -18,17 +20,17 @@ import pyval
 REQUIRED_THEOREMS = [
     "C14_id_verbatim", "C14_id_fresh_distinct", "C14_request_2", "C14_request_1", "C14_notify_2", "C14_notify_1",
     "C14_response", "C14_error", "C14_error_data", "C14_dump_fault", "C14_dump_request", "C14_dump_response",
-    "C14_reject", "C14_accepts", "C14_version_args", "C14_loads_empty", "C14_roundtrip",
-    "C14_gen_thresholds", "C14_gen_idTest",
+    "C14_dump_emits_dict", "C14_reject", "C14_accepts", "C14_version_args", "C14_loads_empty", "C14_roundtrip",
+    "C14_roundtrip_request_on", "C14_fault_dump_forced", "C14_fault_dump_forced_falsy",
+    "C14_gen_thresholds", "C14_gen_idTest", "C14_gen_faultForcedId", "C14_gen_responseResult",
 ]
-
-UUID = re.compile(r"^[0-9a-f]{8}-[0-9a-f]{4}-4[0-9a-f]{3}-[89ab][0-9a-f]{3}-[0-9a-f]{12}$")
 
 PARAMS = [("V", x) for x in (
     [], (), {}, None, [1], (1, "a"), {"a": 1}, [0], [None], [[]], [{}], {"": []}, [1, [2, (3,)], {"k": (4,)}],
-    5, 0, "s", "", True, False, 1.5, ["é"], {"é": "日本"},
+    5, 0, "s", "", True, False, 1.5, ["é"], {"é": "日本"}, 0.0,
 )] + [("F", f) for f in (
     [-32600, "Invalid", None], [0, "", None], [7, "app", {"d": 1}], [-32000, "m", 0], [1.5, "m", []], ["x", "m", False],
+    [True, None, ""],
 )]
 METHODS = ["m", "", None, 5, "ns.sub.é", True]
 RPCIDS = [None, "", 0, 0.0, 1, -1, 1.5, "abc", True, False, [], {}, [1], "0", 2 ** 53]
@@ -37,6 +39,21 @@ FLAGS = [None, True, False]
 CFGS = [(2.0, True), (1.0, True), (2.0, False), (1.0, False)]
 
 DOMAIN_VERSIONS = (None, 1.0, 2.0, "1.0", "2.0")
+FRESH = "FRESH"
+
+
+def params_kind(pv):
+    pk, x = pv
+    if pk == "F":
+        return "fault-data" if x[2] is not None else "fault-nodata"
+    if x is None:
+        return "none"
+    if isinstance(x, (list, tuple, dict)):
+        return ("empty-" if not x else "nonempty-") + type(x).__name__
+    return "scalar-falsy" if not x else "scalar-truthy"
+
+
+PARAM_KINDS = sorted({params_kind(p) for p in PARAMS})
 
 
 def ver_token(v):
@@ -64,23 +81,43 @@ def effective_version(cfgv, v):
     return float(v)
 
 
-def scrub_ids(d, supplied):
-    """Replace a generated uuid id by the marker the model prints."""
-    if isinstance(d, dict) and isinstance(d.get("id"), str) and UUID.match(d["id"]) and (supplied is None or supplied == ""):
+def id_is_generated(case):
+    """From the INPUTS: a request (not a response, not a Fault) whose supplied id is None or "" carries a generated id
+    (a 2.0 notification drops it, a 1.0 notification replaces it by null: nothing to mask there)."""
+    (_cfg, (pk, _params), method, rpcid, _version, is_resp, is_notify) = case
+    return pk != "F" and not is_resp and not is_notify and (rpcid is None or (isinstance(rpcid, str) and rpcid == ""))
+
+
+def mask_id(case, d):
+    """Replace the generated id by the marker the model prints — by position, whatever it looks like."""
+    if id_is_generated(case) and isinstance(d, dict) and "id" in d:
         d = dict(d)
-        d["id"] = "FRESH"
+        d["id"] = FRESH
     return d
 
 
-def monitor(case, kind, val, fresh_seen):
-    """Property statement on one real outcome of jsonrpclib.dump; returns message or None."""
+def norm(v):
+    """JSON normalisation of a JSON-able Python value (tuples become lists), as canonical text: distinguishes 0 / 0.0 /
+    False / "" / None."""
+    return json.dumps(v, sort_keys=True, ensure_ascii=True)
+
+
+def same(a, b):
+    try:
+        return norm(a) == norm(b)
+    except (TypeError, ValueError):
+        return False
+
+
+def monitor(case, kind, val, fresh_seen, via="dump"):
+    """Property statement on one real outcome (the dictionary of jsonrpclib.dump, the parsed text of dumps, or
+    loads(dumps(…))); returns message or None."""
     (cfgv, ujc), (pk, params), method, rpcid, version, is_resp, is_notify = case
     if version not in DOMAIN_VERSIONS or isinstance(version, bool):
         return None
     ver = effective_version(cfgv, version)
     if ver not in (1.0, 2.0):
         return None
-    J = impl.jsonrpclib.jsonrpc
     is_fault = pk == "F"
     container = isinstance(params, (list, tuple, dict))
     # rejections: "non-string method for a request, non-container params with a method, response without id"
@@ -94,31 +131,39 @@ def monitor(case, kind, val, fresh_seen):
             reasons.append("response without id")
         if reasons:
             if kind != "err" or not isinstance(val, (TypeError, ValueError)):
-                return "%s did not raise TypeError/ValueError: %s %r" % (", ".join(reasons), kind, val)
+                return "%s: %s did not raise TypeError/ValueError: %s %r" % (via, ", ".join(reasons), kind, val)
             return None
     if kind != "ok":
-        return "valid combination raised %s: %s" % (type(val).__name__, val)
+        return "%s: valid combination raised %s: %s" % (via, type(val).__name__, val)
     d = val
     if not isinstance(d, dict):
-        return "dump returned %r" % (d,)
+        return "%s returned %r" % (via, d)
     keys = set(d)
+    verbatim = (isinstance(rpcid, str) and rpcid != "") or (isinstance(rpcid, (int, float)))
     if is_fault:
         code, msg, data = params
         err = d.get("error")
-        if not isinstance(err, dict) or err.get("code") != code or err.get("message") != msg:
-            return "error response does not carry the Fault's code/message: %r" % (d,)
-        if (data is not None) != ("data" in err) or (data is not None and err["data"] != data):
-            return "error response data member wrong: %r (data=%r)" % (err, data)
+        if not isinstance(err, dict) or "code" not in err or "message" not in err or \
+                not same(err["code"], code) or not same(err["message"], msg):
+            return "%s: error response does not carry the Fault's code/message %r/%r: %r" % (via, code, msg, d)
+        if (data is not None) != ("data" in err) or (data is not None and not same(err["data"], data)):
+            return "%s: error response data member wrong: %r (data=%r)" % (via, err, data)
+        if set(err) - {"code", "message", "data"}:
+            return "%s: error object has extra members %r" % (via, sorted(err))
         exp = {"jsonrpc", "id", "error"} if ver >= 2 else {"result", "id", "error"}
         if keys != exp or (ver < 2 and d["result"] is not None) or (ver >= 2 and d["jsonrpc"] != "2.0"):
-            return "error response members %r for version %s" % (sorted(keys), ver)
+            return "%s: error response members %r for version %s" % (via, sorted(keys), ver)
+        if verbatim and not same(d["id"], rpcid):
+            return "%s: error response id %r, supplied %r" % (via, d["id"], rpcid)
         return None
     if is_resp:
         exp = {"jsonrpc", "id", "result"} if ver >= 2 else {"result", "id", "error"}
         if keys != exp or (ver < 2 and d["error"] is not None) or (ver >= 2 and d["jsonrpc"] != "2.0"):
-            return "result response members %r for version %s" % (sorted(keys), ver)
-        if d["id"] != rpcid or type(d["id"]) is not type(rpcid):
-            return "response id %r, expected %r" % (d["id"], rpcid)
+            return "%s: result response members %r for version %s" % (via, sorted(keys), ver)
+        if not same(d["id"], rpcid):
+            return "%s: response id %r, expected %r" % (via, d["id"], rpcid)
+        if not same(d["result"], params):
+            return "%s: response result %r, the result handed in is %r" % (via, d["result"], params)
         return None
     # request / notification
     p = [] if params is None else params
@@ -133,29 +178,65 @@ def monitor(case, kind, val, fresh_seen):
     else:
         exp.update(("params", "id"))
     if keys != exp:
-        return "%s members %r, expected %r (version %s, params %r)" % (
-            "notification" if is_notify else "request", sorted(keys), sorted(exp), ver, params)
+        return "%s: %s members %r, expected %r (version %s, params %r)" % (
+            via, "notification" if is_notify else "request", sorted(keys), sorted(exp), ver, params)
     if ver >= 2 and d["jsonrpc"] != "2.0":
-        return "jsonrpc member %r" % (d["jsonrpc"],)
-    if d["method"] != method:
-        return "method %r" % (d["method"],)
+        return "%s: jsonrpc member %r" % (via, d["jsonrpc"],)
+    if not same(d["method"], method):
+        return "%s: method %r, expected %r" % (via, d["method"], method)
+    if "params" in d:
+        if nonempty and not same(d["params"], p):
+            return "%s: params %r, the params handed in are %r" % (via, d["params"], p)
+        if not nonempty and (not isinstance(d["params"], (list, tuple, dict)) or len(d["params"]) != 0):
+            return "%s: params %r for empty params %r" % (via, d["params"], params)
     if is_notify:
         if ver < 2 and d["id"] is not None:
-            return "1.0 notification id %r" % (d["id"],)
+            return "%s: 1.0 notification id %r" % (via, d["id"],)
     else:
-        supplied = (isinstance(rpcid, str) and rpcid != "") or (isinstance(rpcid, (int, float)))
-        if supplied:
-            if d["id"] != rpcid or type(d["id"]) is not type(rpcid):
-                return "supplied id %r replaced by %r" % (rpcid, d["id"])
+        if verbatim:
+            if not same(d["id"], rpcid):
+                return "%s: supplied id %r replaced by %r" % (via, rpcid, d["id"])
         elif rpcid is None or rpcid == "":
-            if not isinstance(d["id"], str) or d["id"] == "" or d["id"] in fresh_seen:
-                return "generated id %r is empty or not unique" % (d["id"],)
-            fresh_seen.add(d["id"])
+            gid = d["id"]
+            if gid is None or isinstance(gid, bool) or not isinstance(gid, (str, int, float)) or gid == "" or repr(gid) in fresh_seen:
+                return "%s: generated id %r is empty or not unique" % (via, gid)
+            fresh_seen.add(repr(gid))
     return None
 
 
 def all_cases():
     return itertools.product(CFGS, PARAMS, METHODS, RPCIDS, VERSIONS, FLAGS, FLAGS)
+
+
+def stratified_sample(rng, n_random):
+    """Quick tier: (a) every (configuration x version argument x is_response x is_notify x kind of params) combination, the
+    remaining axes drawn at random with a bias towards the values that reach the message builders; (b) every value of
+    every axis at least three times with the other axes random; (c) a uniform random sample of the whole product."""
+    out = []
+    by_kind = {}
+    for pv in PARAMS:
+        by_kind.setdefault(params_kind(pv), []).append(pv)
+    good_ids = [r for r in RPCIDS if r is not None]
+    for c in CFGS:
+        for v in VERSIONS:
+            for f1 in FLAGS:
+                for f2 in FLAGS:
+                    for kind in PARAM_KINDS:
+                        pv = rng.choice(by_kind[kind])
+                        m = "m" if rng.random() < 0.7 else rng.choice(METHODS)
+                        r = rng.choice(good_ids) if rng.random() < 0.7 else rng.choice(RPCIDS)
+                        out.append((c, pv, m, r, v, f1, f2))
+    axes = [CFGS, PARAMS, METHODS, RPCIDS, VERSIONS, FLAGS, FLAGS]
+    for ai, axis in enumerate(axes):
+        for val in axis:
+            for _ in range(3):
+                case = [rng.choice(a) for a in axes]
+                case[ai] = val
+                out.append(tuple(case))
+    cases = list(all_cases())
+    for i in sorted(rng.sample(range(len(cases)), n_random)):
+        out.append(cases[i])
+    return out, len(cases)
 
 
 def case_line(case):
@@ -171,90 +252,216 @@ def case_line(case):
     return "pdump " + " ".join(toks)
 
 
-def run(ctx):
+def make_arg(J, cfg, pk, params):
+    return J.Fault(params[0], params[1], data=params[2], config=cfg) if pk == "F" else params
+
+
+def judge_case(J, cfg_objs, case, fresh_seen):
+    """Every observable of one argument combination against the statement.  Returns (dump outcome, [(key, message)])."""
+    (cfgv, ujc), (pk, params), method, rpcid, version, is_resp, is_notify = case
+    cfg = cfg_objs[(cfgv, ujc)]
+    hits = []
+    k, v = impl.outcome(J.dump, make_arg(J, cfg, pk, params), method, rpcid, version, is_resp, is_notify, cfg)
+    m = monitor(case, k, v, fresh_seen)
+    if m:
+        hits.append((m[:70], m))
+    # the text API: dumps must emit (or reject) exactly like the statement says, judged on its own
+    k2, text = impl.outcome(J.dumps, make_arg(J, cfg, pk, params), method, is_resp, None, rpcid, version, is_notify, cfg)
+    parsed = None
+    if k2 == "ok":
+        try:
+            parsed = json.loads(text)
+        except (TypeError, ValueError) as ex:
+            hits.append(("dumps-not-json", "dumps returned %r, which is not a JSON text (%s)" % (text, ex)))
+            k2 = "bad"
+    if k2 in ("ok", "err"):
+        m = monitor(case, k2, parsed if k2 == "ok" else text, fresh_seen, via="dumps")
+        if m:
+            hits.append((m[:70], m))
+    if k == "ok" and k2 == "err":
+        hits.append(("dumps-raises", "dump emits %r but dumps raises %s: %s" % (v, type(text).__name__, text)))
+    if k == "err" and k2 == "ok":
+        hits.append(("dumps-accepts", "dump raises %s but dumps emits %s" % (type(v).__name__, text)))
+    if k == "ok" and k2 == "ok":
+        # loads(dumps(x)) returns the same structure up to JSON normalisation: class translation off and on
+        want = mask_id(case, json.loads(json.dumps(v)))
+        for tag, lcfg in (("jsonclass off", cfg_objs[(cfgv, False)]), ("jsonclass on", cfg_objs[(cfgv, True)])):
+            k3, back = impl.outcome(J.loads, text, lcfg)
+            if k3 != "ok":
+                hits.append(("roundtrip", "loads(dumps(x)) [%s] raised %s: %s" % (tag, type(back).__name__, back)))
+                continue
+            m = monitor(case, "ok", back, fresh_seen, via="loads(dumps(x)) [%s]" % tag) if back != parsed else None
+            if m:
+                hits.append((m[:70], m))
+            if not same(mask_id(case, back), want):
+                hits.append(("roundtrip", "loads(dumps(x)) [%s] = %r differs from the structure dump builds %r" % (tag, back, v)))
+    return (k, v), hits
+
+
+def run(ctx, only_cases=None):
     J = impl.jsonrpclib.jsonrpc
-    ctx.rule = ("cross product config(version, use_jsonclass) x params(22 values + 6 Faults) x method(6) x rpcid(15) x "
-                "version(12) x is_response(3) x is_notify(3) = %d combinations (thorough: all; quick: a seeded sample plus "
-                "every rpcid x version x flag combination on a fixed request); distinct_nontrivial = distinct "
-                "(version, kind of message or exception class, params shape, id class) among cases that emit a message or raise"
-                % (len(CFGS) * len(PARAMS) * len(METHODS) * len(RPCIDS) * len(VERSIONS) * 9))
-    cases = list(all_cases())
-    if ctx.thorough:
-        chosen = cases
+    total = len(CFGS) * len(PARAMS) * len(METHODS) * len(RPCIDS) * len(VERSIONS) * 9
+    ctx.rule = ("cross product config(version, use_jsonclass) x params(%d values + %d Faults) x method(%d) x rpcid(%d) x "
+                "version(%d) x is_response(3) x is_notify(3) = %d combinations (thorough: all; quick: stratified — every "
+                "configuration x version x flag x flag x kind-of-params combination, every value of every axis, plus a seeded "
+                "uniform sample); Fault.dump/response with construction id x forced id x forced version; distinct_nontrivial = "
+                "distinct (version, kind of message or exception class, params shape, id class) among cases that emit a message or raise"
+                % (len([p for p in PARAMS if p[0] == "V"]), len([p for p in PARAMS if p[0] == "F"]), len(METHODS),
+                   len(RPCIDS), len(VERSIONS), total))
+    if only_cases is not None:
+        chosen = only_cases
+    elif ctx.thorough:
+        chosen = list(all_cases())
         ctx.exhaustive = not ctx.searching
     else:
-        idx = ctx.rng.sample(range(len(cases)), 6000)
-        chosen = [cases[i] for i in sorted(idx)]
-        chosen += [(c, ("V", [1]), "m", r, v, f1, f2) for c in CFGS for r in RPCIDS for v in VERSIONS
-                   for f1 in (None, True) for f2 in (None, True)]
+        chosen, _ = stratified_sample(ctx.rng, ctx.budget(10000, 40000))
     cfg_objs = {c: impl.jsonrpclib.config.Config(version=c[0], use_jsonclass=c[1]) for c in CFGS}
-    lines, impl_out, fresh_seen = [], [], set()
+    lines, impl_out, line_case, fresh_seen = [], [], {}, set()
     skipped = 0
+    seen_axis = [set() for _ in range(7)]
+    seen_combo = set()
     for case in chosen:
         (cfgv, ujc), (pk, params), method, rpcid, version, is_resp, is_notify = case
-        cfg = cfg_objs[(cfgv, ujc)]
-        arg = J.Fault(params[0], params[1], data=params[2], config=cfg) if pk == "F" else params
-        k, v = impl.outcome(J.dump, arg, method, rpcid, version, is_resp, is_notify, cfg)
-        m = monitor(case, k, v, fresh_seen)
-        if m:
-            ctx.violate({"case": repr(case)}, m, key=m[:70])
-        if k == "ok":
-            # text round trip on the real backend: loads(dumps(x)) == x up to JSON normalisation
-            k2, text = impl.outcome(J.dumps, arg, method, is_resp, None, rpcid, version, is_notify, cfg)
-            if k2 == "ok":
-                cfg_off = cfg_objs[(cfgv, False)]
-                back = J.loads(text, cfg_off)
-                want = json.loads(json.dumps(v)) if not (isinstance(v.get("id"), str) and UUID.match(v.get("id") or "")) else None
-                if want is not None and back != want:
-                    ctx.violate({"case": repr(case)}, "loads(dumps(x)) = %r differs from %r" % (back, want), key="roundtrip")
+        (k, v), hits = judge_case(J, cfg_objs, case, fresh_seen)
+        for key, m in hits:
+            ctx.violate({"case": repr(case)}, m, key=key)
+        for ai, val in enumerate(case):
+            seen_axis[ai].add(repr(val))
+        seen_combo.add((case[0], repr(version), is_resp, is_notify, params_kind(case[1])))
         line = case_line(case)
         if line is None:
             skipped += 1
         else:
             lines.append(line)
-            if k == "ok":
-                v = scrub_ids(v, rpcid)
-            impl_out.append(impl.canon_outcome(k, v, keep_arg=()))
+            line_case[line] = case
+            impl_out.append(impl.canon_outcome(k, mask_id(case, v) if k == "ok" else v, keep_arg=()))
         kindname = ("error" if pk == "F" else "response" if is_resp else "notify" if is_notify else "request") if k == "ok" else type(v).__name__
         ctx.count(case_repr=repr(case) + " -> " + (json.dumps(v, default=repr) if k == "ok" else repr(v)),
                   nontrivial_key=(str(version), cfgv, kindname, gen.shape(params), type(rpcid).__name__ + str(bool(rpcid))),
                   kind=kindname)
     if J.loads("") is not None:
         ctx.violate({"case": 'loads("")'}, 'loads("") is not None', key="loads-empty")
-    # Fault.dump / Fault.response with the id given at construction
+    if only_cases is None:
+        fault_cases(ctx, J, cfg_objs, lines, impl_out)
+    outs = ctx.lean(lines)
+    for ln, mo, io in zip(lines, outs, impl_out):
+        cm = impl.canon_model_line(mo, keep_arg=()) if not ln.startswith("fdumpw ") else " | ".join(
+            impl.canon_model_line(x, keep_arg=()) for x in mo.split(" | "))
+        if cm != io:
+            ctx.disagree(ln, io, cm, component=ln.split(" ")[0])
+    ctx._c14_line_case = getattr(ctx, "_c14_line_case", {})
+    ctx._c14_line_case.update(line_case)
+    ctx.traces_validated += len(lines)
+    ctx.extra["cases_outside_model"] = skipped
+    ctx.extra["fraction_of_product_sampled"] = round(len(set(map(repr, chosen))) / float(total), 4)
+    ctx.extra["axis_values_covered"] = ["%d/%d" % (len(seen_axis[i]), n) for i, n in enumerate(
+        [len(CFGS), len(PARAMS), len(METHODS), len(RPCIDS), len(VERSIONS), 3, 3])]
+    ctx.extra["config_x_version_x_flags_x_paramskind_covered"] = "%d/%d" % (
+        len(seen_combo), len(CFGS) * len(VERSIONS) * 9 * len(PARAM_KINDS))
+    ctx.assumptions.append("uuid.uuid4 yields distinct ids (monitored on every run, assumed in the theorems via the `fresh` parameter)")
+    ctx.assumptions.append("JSON codec laws of JRV.Backend (render/parse round trip) are assumptions of C14_roundtrip, tested here against the standard-library backend")
+    ctx.assumptions.append("whether an id is generated is decided from the supplied rpcid (None or \"\"), and a generated id is any non-empty "
+                           "string or number not seen before in the run — its format (uuid4, hex, …) is not part of the property")
+    ctx.assumptions.append("Fault.dump(rpcid=x)/Fault.response(rpcid=x) apply the forced id only when it is truthy (`if rpcid:`): a forced 0 or \"\" "
+                           "keeps the id the Fault was built with.  The verbatim-id clause of the property is read as a statement about "
+                           "dump/dumps(rpcid=…); the forced-id behaviour is modelled (faultDumpWith) and stated (C14_fault_dump_forced), not judged")
+
+
+FAULT_FORCED_IDS = [None, 0, "", 5, "forced", 0.0, False, True, [], [1], 1.5]
+FAULT_VERSIONS = [None, 1.0, 2.0, "1.0", "2.0", 0, 2, 1]
+
+
+def fault_cases(ctx, J, cfg_objs, lines, impl_out):
+    """Fault.dump / Fault.response: id given at construction, forced id, forced version."""
+    faults = [p[1] for p in PARAMS if p[0] == "F"]
     for cfgv in (1.0, 2.0):
         cfg = cfg_objs[(cfgv, True)]
-        for (code, msg, data), rid in itertools.product([p[1] for p in PARAMS if p[0] == "F"], RPCIDS):
+        for (code, msg, data), rid in itertools.product(faults, RPCIDS):
             f = J.Fault(code, msg, rpcid=rid, config=cfg, data=data)
             d = f.dump()
             lines.append("fdump L5 I%d %s %s %s %s" % (round(cfgv * 10), pyval.enc(code), pyval.enc(msg), pyval.enc(rid), pyval.enc(data)))
             impl_out.append("ok " + pyval.enc(d, canon=True))
-            t = json.loads(f.response())
-            if t != json.loads(json.dumps(d)):
-                ctx.violate({"fault": [code, msg, data], "rpcid": rid}, "Fault.response() %r differs from Fault.dump() %r" % (t, d), key="fault-response")
+            case = ((cfgv, True), ("F", [code, msg, data]), None, rid, None, True, None)
+            m = monitor(case, "ok", d, set(), via="Fault.dump()")
+            if m:
+                ctx.violate({"fault": [code, msg, data], "rpcid": rid, "config_version": cfgv}, m, key="fault-dump:" + m[:50])
+            k, t = impl.outcome(f.response)
+            if k != "ok" or json.loads(t) != json.loads(json.dumps(d)):
+                ctx.violate({"fault": [code, msg, data], "rpcid": rid, "config_version": cfgv},
+                            "Fault.response() %r differs from Fault.dump() %r" % (t, d), key="fault-response")
             ctx.count(kind="fault.dump")
-    outs = ctx.lean(lines)
-    for ln, mo, io in zip(lines, outs, impl_out):
-        cm = impl.canon_model_line(mo, keep_arg=())
-        if cm != io:
-            ctx.disagree(ln, io, cm, component=ln.split(" ")[0])
-    ctx.traces_validated += len(lines)
-    ctx.extra["cases_outside_model"] = skipped
-    ctx.assumptions.append("uuid.uuid4 yields distinct ids (monitored on every run, assumed in the theorems via the `fresh` parameter)")
-    ctx.assumptions.append("JSON codec laws of JRV.Backend (render/parse round trip) are assumptions of C14_roundtrip, tested here against the standard-library backend")
+        combos = list(itertools.product(faults, [None, 7, "built", 0], FAULT_FORCED_IDS, FAULT_VERSIONS))
+        if not ctx.thorough:
+            combos = [combos[i] for i in sorted(ctx.rng.sample(range(len(combos)), 400))] + \
+                     [(faults[0], r0, fr, v) for r0 in (None, 7) for fr in FAULT_FORCED_IDS for v in FAULT_VERSIONS]
+        for (code, msg, data), rid0, forced, version in combos:
+            vt = ver_token(version)
+            f = J.Fault(code, msg, rpcid=rid0, config=cfg, data=data)
+            d1 = f.dump(rpcid=forced, version=version)
+            d2 = f.dump()
+            g = J.Fault(code, msg, rpcid=rid0, config=cfg, data=data)
+            k, t = impl.outcome(g.response, forced, version)
+            if k != "ok" or json.loads(t) != json.loads(json.dumps(d1)):
+                ctx.violate({"fault": [code, msg, data], "rpcid": rid0, "forced": forced, "version": version, "config_version": cfgv},
+                            "Fault.response(rpcid=%r, version=%r) %r differs from Fault.dump(...) %r" % (forced, version, t, d1),
+                            key="fault-response")
+            # the statement on the forced call: the id that is in force (forced when truthy) and the selected version
+            eff_id = forced if forced else rid0
+            case = ((cfgv, True), ("F", [code, msg, data]), None, eff_id, version, True, None)
+            m = monitor(case, "ok", d1, set(), via="Fault.dump(rpcid=%r, version=%r)" % (forced, version))
+            if m:
+                ctx.violate({"fault": [code, msg, data], "rpcid": rid0, "forced": forced, "version": version, "config_version": cfgv},
+                            m, key="fault-dump:" + m[:50])
+            if vt is not None:
+                lines.append("fdumpw L7 I%d %s %s %s %s %s %s" % (round(cfgv * 10), pyval.enc(code), pyval.enc(msg), pyval.enc(rid0),
+                                                                   pyval.enc(data), pyval.enc(forced), vt))
+                impl_out.append("ok " + pyval.enc(d1, canon=True) + " | ok " + pyval.enc(d2, canon=True))
+            ctx.count(kind="fault.dump(forced)")
+
+
+def search(ctx):
+    """The correspondence disagreed (or an obligation broke) and no monitor fired in the first pass: first re-judge the
+    very inputs on which model and implementation differ — a confirmed one is the failing input; only then enumerate
+    the whole product once (it is finite: no need for other seeds)."""
+    J = impl.jsonrpclib.jsonrpc
+    cfg_objs = {c: impl.jsonrpclib.config.Config(version=c[0], use_jsonclass=c[1]) for c in CFGS}
+    line_case = getattr(ctx, "_c14_line_case", {})
+    fresh_seen = set()
+    for dis in ctx.disagreements[:200]:
+        case = line_case.get(dis.get("case"))
+        if case is None:
+            continue
+        _o, hits = judge_case(J, cfg_objs, case, fresh_seen)
+        for key, m in hits:
+            ctx.violate({"case": repr(case), "found_by": "model/implementation disagreement"}, m, key=key)
+        if ctx.violations:
+            return
+    run(ctx)
 
 
 def replay(payload):
     print(json.dumps(payload.get("case"), indent=1))
-    case = eval(payload["case"]["case"])  # the tuple repr written by run()
-    (cfgv, ujc), (pk, params), method, rpcid, version, is_resp, is_notify = case
     J = impl.jsonrpclib.jsonrpc
-    cfg = impl.jsonrpclib.config.Config(version=cfgv, use_jsonclass=ujc)
-    arg = J.Fault(params[0], params[1], data=params[2], config=cfg) if pk == "F" else params
-    k, v = impl.outcome(J.dump, arg, method, rpcid, version, is_resp, is_notify, cfg)
+    c = payload["case"]
+    if "fault" in c:
+        cfg = impl.jsonrpclib.config.Config(version=c.get("config_version", 2.0))
+        f = J.Fault(c["fault"][0], c["fault"][1], rpcid=c.get("rpcid"), config=cfg, data=c["fault"][2])
+        d = f.dump(rpcid=c.get("forced"), version=c.get("version"))
+        print("Fault.dump ->", d)
+        eff_id = c.get("forced") if c.get("forced") else c.get("rpcid")
+        case = ((c.get("config_version", 2.0), True), ("F", c["fault"]), None, eff_id, c.get("version"), True, None)
+        m = monitor(case, "ok", d, set(), via="Fault.dump")
+        if m:
+            print("VIOLATION reproduced:", m)
+            return 1
+        return 0
+    if c.get("case") == 'loads("")':
+        print('loads("") ->', repr(J.loads("")))
+        return 1 if J.loads("") is not None else 0
+    case = eval(c["case"])  # the tuple repr written by run()
+    cfg_objs = {cc: impl.jsonrpclib.config.Config(version=cc[0], use_jsonclass=cc[1]) for cc in CFGS}
+    (k, v), hits = judge_case(J, cfg_objs, case, set())
     print("dump ->", k, repr(v))
-    m = monitor(case, k, v, set())
-    if m:
+    for _key, m in hits:
         print("VIOLATION reproduced:", m)
-        return 1
-    return 0
+    return 1 if hits else 0
